@@ -25,6 +25,8 @@ THEOREMS = ["valOf_bv", "bv_valOf", "add_correct", "sub_correct", "mul_correct",
             "mul64_correct", "mul64_scheme", "shift64_correct", "div64_panic_iff", "div64_canon", "div64_norm_terminates",
             "specShift_clamp"]
 
+ENV_THEOREMS = ["optable_known", "optable_member", "mul_patterns", "small_const_mul_inexact"]
+
 SMALL = {"int8": (8, True), "int16": (16, True), "int32": (32, True), "int": (32, True),
          "uint8": (8, False), "uint16": (16, False), "uint32": (32, False), "uint": (32, False), "uintptr": (32, False)}
 BIG = {"int64": (64, True), "uint64": (64, False)}
@@ -808,6 +810,74 @@ def run_program_tie(chk, tier, groups):
 
 
 # --------------------------------------------------------------------------------------------------------
+# X-tie: the operator table of compiler/expressions.go, re-extracted on every run (go/ast, harness/cmd/gvh_c06)
+# --------------------------------------------------------------------------------------------------------
+
+def extract_optable():
+    C.build_gvh("gvh_c06")
+    p = C.run_gvh(["optable"], name="gvh_c06")
+    if p.returncode != 0:
+        raise RuntimeError("gvh_c06 optable failed: " + p.stderr[-2000:])
+    ents = [json.loads(l) for l in p.stdout.split("\n") if l.strip()]
+    return [(e["sec"], e["case"], e["guard"], e["text"]) for e in ents]
+
+
+def write_generated(ents):
+    import os
+    gdir = os.path.join(C.LEAN, "GV", "Generated")
+    os.makedirs(gdir, exist_ok=True)
+    path = os.path.join(gdir, "OpTable.lean")
+
+    def ls(x):
+        return json.dumps(x, ensure_ascii=False)
+    src = ("import GV.Model.NumOpTable\n/-! GENERATED by checks/c06.py from `gvh_c06 optable` (go/ast walk of compiler/expressions.go "
+           "of the working tree); do not edit. -/\nnamespace GV.Generated\nopen GV.NumOpTable\ndef opTable : List OpEntry := [\n")
+    src += ",\n".join("  ⟨%s, %s, %s, %s⟩" % tuple(ls(x) for x in e) for e in ents)
+    src += "\n]\nend GV.Generated\n"
+    if os.path.exists(path):
+        os.unlink(path)
+    open(path, "w").write(src)
+
+
+def known_optable():
+    n = int(C.run_driver("C06", ["num optable count"])[0])
+    rows = C.run_driver("C06", ["num optable %d" % i for i in range(n)])
+    return [tuple(r.split("\t")[:4]) for r in rows]
+
+
+def check_optable(chk, tier):
+    """returns the list of table entries that differ between the current source and GV.Model.NumOpTable (empty = tie intact)"""
+    ents = extract_optable()
+    write_generated(ents)
+    envp = C.check_proofs("C06", ENV_THEOREMS, tier, module="GV.Props.C06Env")
+    envp.obligations = ["GV.Props.C06." + t for t in ENV_THEOREMS]
+    ax, _ = (C.audit("GV.Props.C06Env", envp.obligations) if envp.build_ok else ({}, ""))
+    chk.proof.obligations += envp.obligations
+    known = known_optable()
+    changed = [e for e in ents if e not in known] + [k for k in known if k not in ents]
+    if envp.build_ok and not changed:
+        for t in envp.obligations:
+            a = ax.get(t)
+            chk.proof.axioms[t] = a
+            if a is not None and set(a) <= C.ALLOWED_AXIOMS and not envp.forbidden:
+                chk.proof.discharged.append(t)
+            else:
+                chk.proof.failed.append((t, "axioms %s forbidden %s" % (a, envp.forbidden[:3])))
+    else:
+        detail = "; ".join("[%s | %s | %s] %s" % e for e in changed[:6])[:1500]
+        for t in envp.obligations:
+            chk.proof.failed.append((t, "GV.Props.C06Env does not check against the re-extracted operator table; %d entries differ: %s" % (
+                len(changed), detail)))
+        chk.proof.build_log = envp.build_log
+        if not changed:
+            changed = [("extractor", "-", "-", "C06Env failed to build although the tables agree")]
+        chk.notes.append({"optable_changed_entries": [list(e) for e in changed[:40]]})
+    chk.extra["optable_entries"] = len(ents)
+    chk.extra["optable_changed"] = len(changed)
+    return changed
+
+
+# --------------------------------------------------------------------------------------------------------
 # Tie C: float32/float64/complex programs, GopherJS vs native Go (no Lean model: IEEE arithmetic is the engine's)
 # --------------------------------------------------------------------------------------------------------
 import math
@@ -1049,6 +1119,7 @@ def run(tier, seed):
                        "$flatten64 of a 64-bit shift count >= 2^53 is inexact; only its comparisons with 0, 32, 64 matter (monotone rounding)"]
     t0 = time.time()
     chk.proof = C.check_proofs("C06", THEOREMS, tier)
+    changed = check_optable(chk, tier)
     chk.extra["proof_wall_s"] = round(time.time() - t0, 1)
     t0 = time.time()
     # (A) helpers
@@ -1061,6 +1132,13 @@ def run(tier, seed):
     chk.extra["helper_wall_s"] = round(time.time() - t0, 1)
     # (B) programs
     groups = gen_units(tier, chk.rng)
+    if changed:
+        # the operator table obligation is broken: search for a failing input with the widened generator
+        types, ops = affected_of(changed)
+        chk.notes.append("operator table changed -> widened search over types %s, operators %s" % (sorted(types), sorted(ops)))
+        for k, us in gen_units_widened(chk.rng, types, ops).items():
+            groups.setdefault(k, []).extend(us)
+        chk.extra["widened_search"] = {"types": sorted(types), "operators": sorted(ops)}
     run_program_tie(chk, tier, groups)
     run_float_tie(chk)
     run_chain_tie(chk)
